@@ -379,7 +379,22 @@ pub fn case_child(args: &Args) {
                 std::thread::sleep(Duration::from_millis(40));
             }
         }
-        let got = collect(&mut clients, Duration::from_millis(wait_ms), Duration::from_millis(35));
+        // a scrape or an invalid message is always answered: wait for it as long as it takes (5 s);
+        // an announce may legitimately stay unanswered (ownership rule, second peer id): if nothing
+        // came, measure how long the tracker takes to answer a control scrape on a connection of
+        // its own right now, and wait that long again (keeps the verdict independent of machine load)
+        let always_answered = action.starts_with("CScrape") || action.starts_with("CInvalid");
+        let mut got = collect(&mut clients, Duration::from_millis(if always_answered { 5000 } else { wait_ms }), Duration::from_millis(35));
+        if got.is_empty() && !action.starts_with("CClose") {
+            let t0 = Instant::now();
+            let mut ctl = open(port);
+            ctl.ws.get_ref().set_read_timeout(Some(Duration::from_secs(8))).unwrap();
+            let _ = ctl.ws.send(Message::text("{\"action\":\"scrape\",\"info_hash\":[\"\\u00fa\\u00fa\\u00fa\\u00fa\\u00fa\\u00fa\\u00fa\\u00fa\\u00fa\\u00fa\\u00fa\\u00fa\\u00fa\\u00fa\\u00fa\\u00fa\\u00fa\\u00fa\\u00fa\\u00fa\",\"\\u0001\\u00fa\\u00fa\\u00fa\\u00fa\\u00fa\\u00fa\\u00fa\\u00fa\\u00fa\\u00fa\\u00fa\\u00fa\\u00fa\\u00fa\\u00fa\\u00fa\\u00fa\\u00fa\\u00fa\",\"\\u0002\\u00fa\\u00fa\\u00fa\\u00fa\\u00fa\\u00fa\\u00fa\\u00fa\\u00fa\\u00fa\\u00fa\\u00fa\\u00fa\\u00fa\\u00fa\\u00fa\\u00fa\\u00fa\\u00fa\"]}".to_string()));
+            let _ = ctl.ws.read();
+            let _ = ctl.ws.close(None);
+            let lat = t0.elapsed();
+            got = collect(&mut clients, lat * 2 + Duration::from_millis(100), Duration::from_millis(35));
+        }
         // remember forwarded offers for later answers
         for (slot, m, _) in got.iter() {
             if let Some(OutMessage::OfferOutMessage(o)) = m {
